@@ -226,8 +226,12 @@ KwPrefixCases ==
               SelToks(<<A, KW("AS"), ID(KwPrefixIds[i])>>),
               SelToks(<<A, ID(KwPrefixIds[i])>>),
               SelToks(<<A, KW("ORDER"), KW("BY"), A, ID(KwPrefixIds[i])>>) } : i \in 1..Len(KwPrefixIds) }
+\* the whole parent x child x position matrix (all operators, two levels) as a bare target, minimal parentheses
+MatrixTrees ==
+    UNION { { w2 \in Wraps(w1, AllBin, {Col("c")}) : WFE(w2) } : w1 \in { w \in Wraps(Col("a"), AllBin, {Col("b")}) : WFE(w) } }
 EmitFixed ==
     /\ salt = salt
+    /\ ("matrix" \in GenFam => \A w \in MatrixTrees : Case("matrix", PrintTokens(SelOf(w), "min")))
     /\ ("lit" \in GenFam => \A ts \in LitCases : Case("lit", ts))
     /\ ("chain" \in GenFam => \A ts \in ChainCases : Case("chain", ts))
     /\ ("corner" \in GenFam => \A ts \in CornerCases \cup KeywordCases : Case("corner", ts))
